@@ -86,13 +86,21 @@ def replay_case(case):
                 if _terms(dms.formula) != case["d"]:
                     bad.append({"formula": s, "wrt": case["wrt"], "why": "materialized-ModelSpec.differentiate-differs", "observed": _terms(dms.formula), "expected": case["d"]})
                 else:
-                    try:
-                        got_m = numpy.asarray(dms.get_model_matrix(df, context={}, ensure_full_rank=False, output="numpy"), dtype=float)
-                        want_m = numpy.array([[float(case["cols"][i][r]) for i in range(len(case["d"]))] for r in range(len(case["cols"][0]))]) if case["d"] else numpy.zeros((3, 0))
-                        if got_m.shape != want_m.shape or not numpy.array_equal(got_m, want_m):
-                            bad.append({"formula": s, "wrt": case["wrt"], "why": "matrix-of-the-differentiated-materialized-spec-differs", "observed": got_m.tolist(), "expected": want_m.tolist()})
-                    except Exception as e:  # noqa
-                        bad.append({"formula": s, "wrt": case["wrt"], "why": "materializing-the-differentiated-spec-fails", "observed": type(e).__name__ + ": " + str(e)[:150]})
+                    for fr in (False, True):        # purely numeric terms: rank reduction has nothing to reduce
+                        try:
+                            got_m = numpy.asarray(dms.get_model_matrix(df, context={}, ensure_full_rank=fr, output="numpy"), dtype=float)
+                            want_m = numpy.array([[float(case["cols"][i][r]) for i in range(len(case["d"]))] for r in range(len(case["cols"][0]))]) if case["d"] else numpy.zeros((3, 0))
+                            if fr:      # with rank reduction repeated zero terms share one zero column: every NON-ZERO derivative term must have its column
+                                missing = [case["d"][i] for i in range(len(case["d"])) if case["d"][i] != ["0"]
+                                           and not any(numpy.array_equal(got_m[:, j], want_m[:, i]) for j in range(got_m.shape[1]))]
+                                if got_m.shape[0] != want_m.shape[0] or missing:
+                                    bad.append({"formula": s, "wrt": case["wrt"], "why": "a non-zero derivative term has no column under the default options (ensure_full_rank=True)",
+                                                "terms_without_column": missing, "observed": got_m.tolist(), "expected": want_m.tolist()})
+                            elif got_m.shape != want_m.shape or not numpy.array_equal(got_m, want_m):
+                                bad.append({"formula": s, "wrt": case["wrt"], "why": f"matrix-of-the-differentiated-materialized-spec-differs (ensure_full_rank={fr})",
+                                            "observed": got_m.tolist(), "expected": want_m.tolist()})
+                        except Exception as e:  # noqa
+                            bad.append({"formula": s, "wrt": case["wrt"], "why": "materializing-the-differentiated-spec-fails", "observed": type(e).__name__ + ": " + str(e)[:150]})
             for i, t in enumerate(D):
                 if case["d"][i] == ["0"]:
                     continue
